@@ -1,16 +1,38 @@
 use crate::common::Rep;
 
+pub mod c03;
+pub mod c04;
+pub mod c05;
+pub mod c09;
+pub mod c10;
+pub mod c14;
 pub mod c19;
+pub mod c20;
 
 pub fn run(prop: &str, rep: &mut Rep, _args: &[String]) -> bool {
     match prop {
+        "C03" => c03::run(rep),
+        "C04" => c04::run(rep),
+        "C05" => c05::run(rep),
+        "C09" => c09::run(rep),
+        "C10" => c10::run(rep),
+        "C14" => c14::run(rep),
         "C19" => c19::run(rep),
+        "C20" => c20::run(rep),
         _ => return false,
     }
     true
 }
 
 /// Sub-commands executed in child processes. Returns Some(exit code) if `name` is one.
-pub fn subcommand(_name: &str, _args: &[String]) -> Option<i32> {
-    None
+pub fn subcommand(name: &str, args: &[String]) -> Option<i32> {
+    match name {
+        "c14-child" => Some(c14::child(args)),
+        "selftest-ref" => {
+            let bad = crate::refhash::self_test();
+            println!("{:?}", bad);
+            Some(if bad.is_empty() { 0 } else { 1 })
+        }
+        _ => None,
+    }
 }
